@@ -49,7 +49,29 @@ func atoms() []atom {
 	}
 	get := func(path, id string, tags ...string) opDef { return opDef{method: "GET", path: path, opID: id, tags: tags} }
 	q := func(name string) J { return J{"name": name, "in": "query", "type": "string"} }
+	// every word go/build reads as an implicit GOOS / GOARCH constraint when it ends a file name
+	goos := strings.Fields("aix android darwin dragonfly freebsd hurd illumos ios js linux nacl netbsd openbsd plan9 solaris wasip1 windows zos")
+	goarch := strings.Fields("386 amd64 amd64p32 arm armbe arm64 arm64be loong64 mips mipsle mips64 mips64le mips64p32 mips64p32le ppc ppc64 ppc64le riscv riscv64 s390 s390x sparc sparc64 wasm")
+	suffixed := func(prefix string, words []string) []string {
+		var out []string
+		for _, w := range words {
+			out = append(out, prefix+"_"+w)
+		}
+		return out
+	}
+	suffixOps := func(prefix string, words []string) []opDef {
+		var out []opDef
+		for i, n := range suffixed(prefix, words) {
+			out = append(out, get(fmt.Sprintf("/s%d", i), n))
+		}
+		return out
+	}
 	return []atom{
+		{id: "files.def-goos-suffix", ops: []opDef{get("/p1", "one")}, defs: d(suffixed("kernel", goos)...)},
+		{id: "files.def-goarch-suffix", ops: []opDef{get("/p1", "one")}, defs: d(suffixed("kernel", goarch)...)},
+		{id: "files.def-goos-goarch-suffix", ops: []opDef{get("/p1", "one")}, defs: d("kernel_linux_amd64", "kernel_windows_arm64", "KernelLinuxPpc", "kernelPlan9Sparc", "kernel-js-wasm", "kernel_test")},
+		{id: "files.op-goos-suffix", ops: suffixOps("run", goos)},
+		{id: "files.op-goarch-suffix", ops: suffixOps("run", goarch)},
 		{id: "baseline.distinct", ops: []opDef{get("/alpha", "getAlpha"), get("/beta", "getBeta"), {method: "POST", path: "/alpha", opID: "postAlpha"}}, defs: d("alpha", "beta")},
 		{id: "paths.dash-vs-underscore.no-ids", ops: []opDef{get("/a-b", ""), get("/a_b", "")}},
 		{id: "paths.dash-vs-underscore.no-ids.3", ops: []opDef{get("/x-y", ""), get("/x_y", ""), get("/x.y", "")}},
